@@ -332,6 +332,11 @@ class NumArr:
             else:
                 idx = [self._idx(k) for k in ks]
         else:
+            if self.ndim == 1 and (isinstance(value, NumArr) or isinstance(value, (list, tuple))):
+                flat = value.ravel().data if isinstance(value, NumArr) else list(value)
+                if len(flat) != 1 or isinstance(flat[0], (list, tuple, NumArr)):
+                    raise ValueError("setting an array element with a sequence.")
+                value = flat[0]
             self.data[self._idx(key)] = value
             return
         vals = list(value) if _is_seq(value) else [value] * len(idx)
